@@ -430,7 +430,17 @@ func init() {
 				}
 				return 0, false, false
 			}
+			sortedF := r.P.Field("util/ds", "SortedMap", "isSorted")
 			sspec.Step = func(c *pathsim.Ctx, s pathsim.State, ev *pathsim.Event) []pathsim.State {
+				if ev.Kind == pathsim.EvAssign && len(ev.Lhs) == 1 && len(ev.Rhs) == 1 && prog.SelField(c.Info, ev.Lhs[0]) == sortedF {
+					if tv, ok := c.Info.Types[ev.Rhs[0]]; ok && tv.Value != nil && tv.Value.String() == "false" && s.A&2 != 0 {
+						s.B = 1
+					}
+					return []pathsim.State{s}
+				}
+				if (ev.Kind == pathsim.EvReturn || ev.Kind == pathsim.EvExit) && s.A&2 != 0 && s.B == 0 {
+					c.Violate(ev.Pos, "[append-keeps-sorted-flag] a key is appended to the list without invalidating isSorted: Keys / Values / All and the binary search in Delete keep treating the list as sorted")
+				}
 				if ev.Kind == pathsim.EvField && ev.Write {
 					if ev.Field == smM {
 						s.A |= 1
